@@ -94,6 +94,7 @@ def default_knobs(rng, **over):
         inst_depth=rng.choice([2, 3, 3, 4]),
         variant=0,
         triggers=rng.choice([False, False, True]),
+        regex_boost=False,
     )
     k.update(over)
     return k
@@ -113,6 +114,11 @@ class WorldGen(object):
         rng, k = self.rng, self.k
         self.root_url = k.root_url
         self.doc_urls = rng.sample(DOC_URLS, k.ndocs)
+        # documents that are *falsy* JSON values: the empty schema, an empty array, (draft 6+) false/true
+        self.plain_docs = {}
+        if rng.random() < 0.3:
+            self.plain_docs["http://sim.test/root/any.json"] = rng.choice(
+                [{}, {}, [], False, True] if self.modern else [{}, {}, []])
         homes = []
         for i in range(k.ndefs):
             if i < len(self.doc_urls):
@@ -176,6 +182,7 @@ class WorldGen(object):
             doc.update(self.leaf(allow_bool=False) if rng.random() < 0.5 else {})
             doc["definitions"] = dict((self.names[i], defs[i]) for i in range(k.ndefs) if homes[i] == u)
             docs[u] = doc
+        docs.update(self.plain_docs)
         store_docs = [u for u in self.doc_urls if rng.random() < k.store_rate]
         # the caller may spell a store key with a trailing '#': it designates the same document
         store_keys = dict((u, u + "#" if rng.random() < 0.4 else u) for u in store_docs)
@@ -252,6 +259,10 @@ class WorldGen(object):
             cands.append(("def", j))
         for u in self.doc_urls:
             cands.append(("docroot", u))
+        for u in self.plain_docs:
+            if not isinstance(self.plain_docs[u], list):
+                cands.append(("docroot", u))
+                cands.append(("docroot", u))
         if consumed:
             cands.append(("root", None))
         if k.metaschema_refs:
@@ -336,6 +347,8 @@ class WorldGen(object):
             kinds += ["if", "if"]
         if self.custom and self.custom["keywords"]:
             kinds += ["x-each", "x-also"]
+        if self.k.get("regex_boost"):
+            kinds += ["patternProperties"] * 3
         for kind in rng.sample(kinds, rng.choice([1, 1, 2])):
             if kind == "properties":
                 props = {}
@@ -358,6 +371,8 @@ class WorldGen(object):
                 s["additionalProperties"] = self.schema(base, index, d, True) if rng.random() < 0.7 else False
             elif kind == "patternProperties":
                 s["patternProperties"] = {rng.choice(PP_PATTERNS): self.schema(base, index, d, True)}
+                if self.k.get("regex_boost") and rng.random() < 0.5:
+                    s["additionalProperties"] = rng.choice([False, self.leaf()])
             elif kind == "dependencies":
                 key = rng.choice(KEYS)
                 if rng.random() < 0.6:
@@ -474,6 +489,8 @@ class WorldGen(object):
             kinds += ["x-marker"]
         if self.custom and self.custom["types"]:
             kinds += ["custom_type", "custom_type"]
+        if self.k.get("regex_boost"):
+            kinds += ["pattern"] * 5
         if getattr(self, "triggers", None):
             # faults need workload: make the raising collaborators reachable
             if "format" in self.triggers:
